@@ -284,6 +284,12 @@ def run_property(prop, tier='quick', seed=0, jobs=None, only=None):
                  and k['obligation'] not in [n for n, _, _ in known_hits]]
 
   # -- bounded tier ------------------------------------------------------------------
+  waivers = []
+  wp = os.path.join(VERIF, 'bounded', 'waivers.json')
+  if os.path.exists(wp):
+    with open(wp) as f:
+      waivers = json.load(f).get(prop, [])
+  waived = []
   b_cases = b_distinct = 0
   b_funcs = []
   b_fail = []
@@ -300,6 +306,11 @@ def run_property(prop, tier='quick', seed=0, jobs=None, only=None):
     for fl in br['failures']:
       fl['driver'] = br['driver']
       kid = fl['case_id']
+      w = next((w_ for w_ in waivers if re.search(w_['match'], kid)), None)
+      if w is not None:
+        # outside the claim: the driver's oracle asks more than the statement
+        waived.append(dict(case_id=kid, reason=w['reason']))
+        continue
       hit = None
       for k in known:
         if k.get('kind') == 'bounded' and (k['obligation'] == kid or (k.get('match') and re.search(k['match'], kid))):
@@ -383,6 +394,7 @@ def run_property(prop, tier='quick', seed=0, jobs=None, only=None):
       bounded=dict(functions=b_funcs, cases=b_cases, distinct_nontrivial=b_distinct,
                    contract_obligations_with_stated_bound=nb_ob, of_which_discharged=nb_dis,
                    contracts_with_stated_bound=sorted(set(bounded_contracts)),
+                   oracle_narrowed=waived,
                    note='bounded stand-in; never counted in obligations/discharged'),
       dropped_by_extraction=dropped,
       evaluations=max(1, b_cases + cover), distinct_nontrivial=max(2, b_distinct + n_ob),
